@@ -25,6 +25,7 @@ PLAN = {
     'quick': [(2, 4, 2), (5, 5, 1)],
     'thorough': [(2, 5, 2), (6, 6, 1)],
 }
+MIXED_MAX = {'quick': 4, 'thorough': 5}
 DIGEST_PLAN = {'quick': (5, 7, 1), 'thorough': (4, 7, 1)}
 SEEDS = {'quick': ['1', 'random'], 'thorough': ['0', '1', '2', '3', '4', '5', '6', 'random']}
 
@@ -213,6 +214,11 @@ def run(tier, seed):
     # all their declaration variants
     for t in digest_tasks(tier):
         tasks.append(t[:4] + ('variants-lite',))
+    # three transitions at once, at least two regions involved (which error is raised when a step is both
+    # non-deterministic and conflicting must not depend on the declaration order either)
+    for tree in skeletons(3, MIXED_MAX[tier]):
+        if "'O'" in repr(tree):
+            tasks.append((tree, 'asc', 0, '3m', 'variants-lite'))
     tasks.sort(key=lambda t: -len(repr(t[0])))
     results = harness.pmap(work, tasks, chunksize=2)
     agg = harness.Agg()
